@@ -37,6 +37,9 @@ func init() {
 		subRule(w, r, rC10Call, "R18.16", "Help() inside a command function renders the command it runs for: the GetOpt handed to the function views the selected node in both of its fields (same obligations as C10 R10.1)", 2)
 	})
 	addRules("C11", rHelpEverywhere("R11.17"))
+	addRules("C02", func(w *World, r *Report) {
+		subRule(w, r, rC12GetEnvBody, "R02.17", "what a slice or map option holds are the values consumed from the command line, in that order: the environment modifier never saves into a multi-value option (same obligations as C12 R12.4)", 9)
+	})
 	addRules("C15", rSemaphoreFresh("R15.10"))
 }
 
@@ -640,4 +643,78 @@ func sureError(v, errV ssa.Value) bool {
 		return true
 	}
 	return false
+}
+
+// ------------------------------------------------------------------ round 7
+
+func init() {
+	addRules("C07", func(w *World, r *Report) {
+		subRule(w, r, rC01Splitter, "R07.12", "a token and its documented rewriting carry the same name and value: in every mode the tokeniser cuts them out of the token by submatch / one leading separator / per-rune split only (same obligations as C01 R01.2)", 5)
+	})
+	addRules("C17", func(w *World, r *Report) {
+		subRule(w, r, rC10Call, "R17.15", "completing never runs a command function: the only call through a CommandFn is Dispatch's call of finalNode.CommandFn, and finalNode is set by a real parse only (same obligations as C10 R10.1)", 2)
+	})
+	addRules("C18", rHelpTopicEquality("R18.17"))
+	addRules("C03", func(w *World, r *Report) {
+		subRule(w, r, rC09Sites, "R03.16", "the tail is copied in bulk only at the terminator and at a require-order stop: everywhere else each token is looked at (a later `--` is a terminator, an option is an option) (same obligations as C09 R09.1)", 5)
+	})
+	addRules("C05", func(w *World, r *Report) {
+		subRule(w, r, rC10Descent, "R05.15", "every option-looking token goes through the matcher: the splitter's verdict alone decides between option and plain text (same obligations as C10 R10.3)", 4)
+	})
+	addRules("C16", rFieldFootprint("R16.17", []string{"(*dag.Graph).DepthFirstSort", "dag.visit"}, map[string]bool{"Vertices": true, "ID": true, "Children": true}, nil,
+		"the order and the cycle verdict are computed from the graph as it is now: DepthFirstSort and visit read nothing of graph or vertex but Vertices, ID and Children, and write no field (no memoised result, no per-vertex annotation)"),
+		rFieldFootprint("R16.18", []string{"(*dag.Graph).getNextVertex"}, map[string]bool{"Vertices": true, "serial": true, "status": true, "Children": true, "ID": true}, nil,
+			"whether a task is offered depends on its own status and on the statuses of its dependencies only: getNextVertex reads no other field of graph or vertex and writes none"))
+}
+
+// rFieldFootprint: the listed functions (located by name, visit also by role) touch only the allowed fields of the
+// dag's Graph and Vertex: reads limited to `reads`, writes to `writes`.
+func rFieldFootprint(id string, fns []string, reads, writes map[string]bool, text string) func(w *World, r *Report) {
+	return func(w *World, r *Report) {
+		ru := r.Rule(id, text, 1)
+		for _, name := range fns {
+			fn := w.Fn(name)
+			if fn == nil && name == "dag.visit" {
+				if d := w.Fn("(*dag.Graph).DepthFirstSort"); d != nil {
+					fn = dfsVisitFn(d)
+				}
+			}
+			if fn == nil {
+				ru.Undecided("anchor/"+name, "-", "not found")
+				continue
+			}
+			bad := ""
+			for _, f := range funcsWithAnon(fn) {
+				eachInstr(f, func(in ssa.Instruction) {
+					fa, ok := in.(*ssa.FieldAddr)
+					if !ok || fa.Referrers() == nil {
+						return
+					}
+					ts := typeString(fa.X.Type())
+					if ts != "*dag.Graph" && ts != "*dag.Vertex" {
+						return
+					}
+					fname := fieldOfAddr(fa).Name()
+					for _, ref := range *fa.Referrers() {
+						switch x := ref.(type) {
+						case *ssa.DebugRef:
+						case *ssa.UnOp:
+							if !reads[fname] && !writes[fname] {
+								bad = "reads " + fname + " at " + w.IPos(fa)
+							}
+						case *ssa.Store:
+							if x.Addr == ssa.Value(fa) && !writes[fname] {
+								bad = "writes " + fname + " at " + w.IPos(x)
+							}
+						default:
+							if !writes[fname] {
+								bad = "takes the address of " + fname + " at " + w.IPos(fa)
+							}
+						}
+					}
+				})
+			}
+			ru.Check(bad == "", "footprint/"+short(fn), w.Pos(fn.Pos()), "touches only the expected fields", short(fn)+" "+bad+": its result now depends on (or it leaves behind) state other than the graph's current vertices, edges and statuses")
+		}
+	}
 }
